@@ -26,6 +26,7 @@ import (
 	"time"
 
 	"github.com/ipfs/boxo/blockservice"
+	"github.com/ipfs/boxo/blockstore"
 	"github.com/ipfs/boxo/exchange"
 	"github.com/fxamacker/cbor/v2"
 	blocks "github.com/ipfs/go-block-format"
@@ -38,6 +39,7 @@ import (
 	"github.com/libp2p/go-libp2p/core/peerstore"
 	"github.com/multiformats/go-multiaddr"
 	"github.com/sourcenetwork/corekv"
+	grpcpeer "google.golang.org/grpc/peer"
 	"github.com/sourcenetwork/immutable"
 
 	"github.com/sourcenetwork/defradb/client"
@@ -525,6 +527,103 @@ func VerifH_C15_Routing() {
 		for who := range e.pids {
 			vObserve("routed", got[who])
 			vAssert(got[who] == (want[who]&(1<<uint(c)) != 0), "update-events-reach-exactly-the-configured-replicators")
+		}
+	}
+}
+
+// ---- O3: the receiving side of a replicator push ----
+
+// a push that the receiver acknowledges has been synchronised and handed to the merge: processPushlog returns success
+// only after syncDAG ran for the pushed block and a merge event for the pushed head was published — whether or not the
+// head block is already in the receiver's block store (a first attempt may have stored it and died before the merge).
+
+type lAddr string
+
+func (a lAddr) Network() string { return "libp2p" }
+func (a lAddr) String() string  { return string(a) }
+
+type lRecvBlockstore struct {
+	blockstore.Blockstore
+	known bool
+}
+
+func (b lRecvBlockstore) Has(ctx context.Context, c cid.Cid) (bool, error) { return b.known, nil }
+
+type lRecvBlockService struct {
+	blockservice.BlockService
+	known  bool
+	fail   bool
+	synced *int
+}
+
+func (s lRecvBlockService) Blockstore() blockstore.Blockstore { return lRecvBlockstore{known: s.known} }
+
+// natively syncDAG runs for real on a block without links: it stores the block through the block service
+func (s lRecvBlockService) AddBlock(ctx context.Context, b blocks.Block) error {
+	*s.synced++
+	if s.fail {
+		return lErrUnreachable
+	}
+	return nil
+}
+
+// redirect target of syncDAG inside the solver run (storing a node encodes it with dag-cbor)
+func lSyncDAG(ctx context.Context, bs blockservice.BlockService, block *coreblock.Block) error {
+	return bs.AddBlock(ctx, nil)
+}
+
+type lRecvBus struct {
+	event.Bus
+	msgs []event.Message
+}
+
+func (b *lRecvBus) Publish(msg event.Message) { b.msgs = append(b.msgs, msg) }
+
+var lRecvBlock *coreblock.Block
+
+// redirect target of coreblock.GetFromBytes inside the solver run
+func lGetFromBytes(b []byte) (*coreblock.Block, error) { return lRecvBlock, nil }
+
+// VerifH_C15_Receive — inputs: the head block is already stored; the synchronisation fails
+func VerifH_C15_Receive() {
+	known, fail := vBool("head-already-stored"), vBool("sync-fails")
+	synced := 0
+	bus := &lRecvBus{}
+	p := &Peer{ctx: context.Background(), bus: bus, blockService: lRecvBlockService{known: known, fail: fail, synced: &synced}}
+	s := &server{peer: p}
+	p.server = s
+	const docID = "bae-0b7a5c3e-1c5d-5e3a-9c1b-0f6f1f4a1a01"
+	blk := coreblock.New(&crdt.DocCompositeDelta{DocID: []byte(docID), Priority: 1, SchemaVersionID: lRoot, Status: client.Active}, nil)
+	lRecvBlock = blk
+	raw, err := blk.Marshal()
+	if err != nil {
+		panic("Marshal")
+	}
+	head := lFakeCid(0, 1)
+	if !vSymbolic() {
+		lnk, err := blk.GenerateLink()
+		if err != nil {
+			panic("GenerateLink")
+		}
+		head = lnk.Cid
+	}
+	ctx := grpcpeer.NewContext(context.Background(), &grpcpeer.Peer{Addr: lAddr(lPeer)})
+	req := &pushLogRequest{DocID: docID, CID: head.Bytes(), CollectionID: lRoot, Creator: lPeer, Block: raw}
+	_, err = s.processPushlog(ctx, req, true)
+	vCover("received")
+	vObserve("acknowledged", err == nil)
+	if err != nil {
+		vAssert(fail, "push-rejected-only-when-the-synchronisation-fails")
+		vAssert(len(bus.msgs) == 0, "no-merge-event-for-a-rejected-push")
+		return
+	}
+	vAssert(synced == 1 && !fail, "acknowledged-push-was-synchronised")
+	vAssert(len(bus.msgs) == 1, "acknowledged-push-is-handed-to-the-merge-once")
+	if len(bus.msgs) == 1 {
+		m, ok := bus.msgs[0].Data.(event.Merge)
+		vAssert(ok && bus.msgs[0].Name == event.MergeName, "merge-event")
+		if ok {
+			vAssert(m.DocID == docID && m.Cid == head && m.CollectionID == lRoot, "merge-event-names-the-pushed-head")
 		}
 	}
 }
